@@ -83,6 +83,9 @@ def r_default_inputs(c):
         zb = np.zeros(tuple(p1[n].shape)) if b is None else b
         if not close(za, zb):
             probs.append(f".grad of {n}: defaulted {None if a is None else a.tolist()} vs explicit {None if b is None else b.tolist()}")
+        elif (a is None) != (b is None) and b is not None:
+            # a leaf of the reference set receives a .grad from the explicit call (zeros / an empty tensor if nothing flows): the defaulted call must create it too
+            probs.append(f".grad of {n}: the explicit call created it ({b.tolist()}), the defaulted call left it None")
     return dict(reproduced=bool(probs), why=probs[:3])
 
 
@@ -225,6 +228,22 @@ def r_typed(c):
             exp = lca(exp, TYPES[t])
         ok = type(res) is exp and set(res.keys()) == {keys[i] for o in c["outs"] for i in o}
         return dict(reproduced=not ok, why=[] if ok else [f"result type {type(res).__name__}, most specific common type of the parts is {exp.__name__}"])
+    if w == "conjunction_rows":
+        class RStub(Stub):
+            def __init__(self, req, out, rows):
+                Stub.__init__(self, req, out, Jacobians)
+                self.rows = rows
+            def _compute(self, inp):
+                return Jacobians({keys[i]: val(keys[i], Jacobians, rows=self.rows) for i in self.out})
+        conj = Conjunction([RStub(c["req"], c["outs"][0], int(c["rows"][0])), RStub(c["req"], c["outs"][1], int(c["rows"][1]))])
+        inp = Gradients({keys[i]: val(keys[i], Gradients) for i in c["req"]}) if c["req"] else EmptyTensorDict()
+        try:
+            res = conj(inp)
+            ran = True
+        except ValueError:
+            ran = False
+        ok = ran == (c["rows"][0] == c["rows"][1])
+        return dict(reproduced=not ok, why=[] if ok else [f"conjunction of Jacobians with {c['rows'][0]} and {c['rows'][1]} rows was {'accepted: ' + type(res).__name__ if ran else 'rejected'}"])
     if w == "tensor_dict":
         typ = TYPES[c["type"]]
         d = {torch.zeros(tuple(c["key_shape"])): torch.zeros(tuple(c["value_shape"]))}
